@@ -13,6 +13,14 @@ CLAIMED = {
              tech="Lean 4 proof over regenerated layout tables + differential correspondence", ref="DESIGN.md §5 C14"),
  "C01": dict(cat="proof", text="Lean theorems over M-ENGINE: I1–I3 (hand-kept counter = Σ depth) for every reachable state of every operation sequence (induction), contract of the admission kernel, and the property's bound at both grant sites (direct, wake-up). Partial: excludes the regime Count=0xffff with ≥65535 holds (proved unbounded: ffff_admits_unbounded); the uniform-Count corollary and the ack-pending grant site are not yet proved. Model tied to the code by differential run + monitor evaluating the bound on the real engine at every grant.",
              note=ENGINE_NOTE, tech="Lean 4 proof (invariant by induction over operations) + differential correspondence", ref="DESIGN.md §5 C01"),
+ "C02": dict(cat="proof", text="Lean theorems over M-ENGINE giving the functional specification of UnLock and of the re-lock arm of Lock for every state with the reachable-state invariant: refused unlock changes nothing but the error counter and answers UNLOCK_ERROR/UNOWN_ERROR; cancel-wait removes the last queued request of that LockId with the two prescribed replies; re-lock succeeds iff depth ≤ Rcount ∧ depth < 255 and adds exactly one level; unlock removes one level iff Rcount>0 ∧ depth>1 else all. Tied to the code by the E-seq differential + monitors (refused unlock leaves the real key state unchanged; a successful unlock names an outstanding hold).",
+             note=ENGINE_NOTE, tech="Lean 4 proof (decision/effect theorems + invariant) + differential correspondence", ref="DESIGN.md §5 C02"),
+ "C04": dict(cat="proof", text="Lean theorems over M-ENGINE: queue insertion never overtakes an equal-or-higher priority and keeps the queue priority-sorted (stable); grants are made at the queue head; every wake pass ends with an empty queue or an inadmissible head; every unlock/expiry is followed by a wake pass (key settled afterwards). The full quiescent claim is FALSE on the unchanged code: proved by a concrete counterexample (C04_quiescent_fails), replayed on the real engine and listed as known findings (4 causes: head waiter timed out / cancelled, Count raised by update / re-lock).",
+             note=ENGINE_NOTE, tech="Lean 4 proof + counterexample by decide + differential correspondence", ref="DESIGN.md §5 C04"),
+ "C05": dict(cat="proof", text="Lean theorems over M-ENGINE's timer-wheel model for every reachable state: deadline = now+T·unit+1; the sweep hands to doTimeOut only requests whose deadline has been reached (never early); Timeout 0 is never queued; firing answers TIMEOUT once and removes the request. Partial: 'not late' is proved as the local step lemma (re-arm into [now+1, deadline] / fire when due) without the global induction; millisecond waits are runtime behaviour outside the model. The monitor checks [T, T+2] on the real engine under the virtual clock.",
+             note=ENGINE_NOTE, tech="Lean 4 proof (wheel invariant by induction over operations) + differential correspondence", ref="DESIGN.md §5 C05"),
+ "C06": dict(cat="proof", text="Lean theorems over M-ENGINE for every reachable state: deadline at grant / restart of the period by re-lock or update (and the '(unlimited,0xffff) = leave as is' token), never-early for the expiry sweep, unlimited holds are never fired, doExpried sends EXPRIED under the right RequestId, removes the whole depth and leaves the key settled (wake pass). Partial: the upper bound (E+2 / +10 after a shortening update) is checked by the monitor on the real engine, not proved; millisecond expiries and follower deferral are outside this model.",
+             note=ENGINE_NOTE, tech="Lean 4 proof (wheel invariant by induction over operations) + differential correspondence", ref="DESIGN.md §5 C06"),
 }
 m = {"version": 1, "setup_cmd": "./setup",
      "hooks": {"guard": "verif", "enable": "go test -c -tags verif -overlay <overlay.json> ./server ./protocol (harness sources are injected from /verif/go/harness; there are no hook commits in /repo)",
